@@ -189,6 +189,59 @@ def flat_decls(ms, out=None):
     return out
 
 
+def if_structure_diff(wm, im, definers, types):
+    """conditional structure as data: every wowm branch must appear in the IR with exactly its enumerators, an else block
+    as one more branch listing exactly the enumerators no earlier branch claims (enum chains); returns a message or None"""
+    wi = [m for m in wm if m['k'] in ('if', 'optional')]
+    ii = [m for m in im if m['k'] in ('if', 'optional')]
+    if len(wi) != len(ii):
+        return '%d conditional blocks in the wowm, %d in the IR' % (len(wi), len(ii))
+    for a, b in zip(wi, ii):
+        if a['k'] != b['k']:
+            return 'block kinds differ (%s vs %s)' % (a['k'], b['k'])
+        if a['k'] == 'optional':
+            d = if_structure_diff(a['members'], b['members'], definers, types)
+            if d:
+                return d
+            continue
+        var = a['branches'][0][0][0][0]
+        nb = len(a['branches'])
+        want = nb + (1 if a['els'] is not None else 0)
+        if len(b['branches']) != want:
+            return 'if (%s ...): %d branches (incl. else) in the wowm, %d in the IR' % (var, want, len(b['branches']))
+        claimed = []
+        for k in range(nb):
+            wv = [en for (_, op, en) in a['branches'][k][0]]
+            iv = [en for (_, op, en) in b['branches'][k][0]]
+            ops = set(op for (_, op, en) in a['branches'][k][0])
+            if ops == {'!='}:
+                # wowm `x != A` is listed in the IR by the enumerators it admits
+                d = definers.get(types.get(var))
+                allv = [f['name'] for f in d['fields']] if d else []
+                wv = [n for n in allv if n not in wv]
+            if sorted(wv) != sorted(iv):
+                extra = [x for x in iv if x not in wv]
+                missing = [x for x in wv if x not in iv]
+                return 'if (%s ...) branch %d: IR lists %s%s' % (var, k, ('extra ' + ', '.join(extra[:4])) if extra else '', (' missing ' + ', '.join(missing[:4])) if missing else '')
+            claimed += wv
+            d = if_structure_diff(a['branches'][k][1], b['branches'][k][1], definers, types)
+            if d:
+                return d
+        if a['els'] is not None:
+            d = definers.get(types.get(var))
+            if d is not None and d['k'] == 'enum':
+                rest = [f['name'] for f in d['fields'] if f['name'] not in claimed]
+                iv = [en for (_, op, en) in b['branches'][nb][0]]
+                if sorted(rest) != sorted(iv):
+                    extra = [x for x in iv if x not in rest]
+                    missing = [x for x in rest if x not in iv]
+                    return 'else of if (%s ...): the IR must list exactly the enumerators no earlier branch claims; %s%s' % (var, ('extra ' + ', '.join(extra[:5])) if extra else '', (' missing ' + ', '.join(missing[:5])) if missing else '')
+            dd = if_structure_diff(a['els'], b['branches'][nb][1], definers, types)
+            if dd:
+                return dd
+    return None
+
+
 def update_mask_structs(ir, exp):
     """structs tagged used_in_update_mask are described inside the <expansion>_update_mask table"""
     out = {}
@@ -431,6 +484,11 @@ def run(tier, only=None):
                 if fa != fb:
                     diff = next((x for x in zip(fa, fb) if x[0] != x[1]), ('length %d' % len(fa), 'length %d' % len(fb)))
                     ck.violation('%s/%s/%s/members' % (kind, target, n), 'container %s (%s %s): declared members differ between wowm and IR, first difference %r' % (n, kind, target, diff), {})
+                    continue
+                types = {x[0]: x[1] for x in fa}
+                sdiff = if_structure_diff(cw['members'], ci['members'], view['definers'], types)
+                if sdiff:
+                    ck.violation('%s/%s/%s/conditions' % (kind, target, n), 'container %s (%s %s): conditional structure differs between wowm and IR: %s' % (n, kind, target, sdiff), {})
                     continue
                 try:
                     k, err = compare_container(corpus, view, cw, ci, irview, bounds, sd)
